@@ -1,2 +1,143 @@
-"""static per-property metadata that goes into the evidence files (what is not covered, extra assumptions)"""
-PROPS = {}
+"""static per-property metadata: manifest texts and what goes into every evidence file (not covered, extra assumptions)"""
+
+TECH = "CBMC 6.11 code contracts (goto-instrument --dfcc) and full-domain lemma harnesses over C lowered mechanically from the real headers (cxx2c), native replay + co-execution against g++ object code"
+
+PROPS = {
+    "C01": {
+        "families": ["vector", "ivector"],
+        "level": "every public operation of static_vector<int,N> / inplace_vector<int,N> / stack is proved, from an ARBITRARY well-formed object (induction over histories), to produce the whole std::vector view (size, every element, returned iterator) for N in {1,4} (thorough: 0,7; size-type boundary 255/256); loops are bounded by the capacity and fully unwound with unwinding assertions",
+        "note": "capacities and element types are enumerated, not quantified; trusted: clang-14 front end, cxx2c lowering (validated per run by layout asserts, co-execution and native replay), CBMC + SAT back end, hand-written reference semantics",
+        "not_covered": ["capacities other than the enumerated ones", "element types other than int (non-trivial element lifetimes are C03's family 'lifetime')", "emplace_back return value: tetl returns void"],
+        "design_ref": "DESIGN.md 7 C01",
+    },
+    "C02": {
+        "families": "*",
+        "level": "safety projection of every family: CBMC's built-in obligations (array bounds on exact-size objects, pointer validity, pointer arithmetic, signed overflow, division by zero, shift width, float->integer conversion) are discharged for every harness whose inputs respect the documented preconditions; allocator-freedom is a call-closure fact established by the lowering (non-placement new/delete abort it, malloc & co. would be rejected externals)",
+        "note": "UB kinds CBMC does not model (strict aliasing, lifetime of trivially destructible objects, data races) are not covered; bounded groups are reported separately",
+        "not_covered": ["code not reached by any driver", "strict aliasing / data races / evaluation-order UB", "uninitialised reads other than through the 'default construction establishes wf' obligations"],
+        "design_ref": "DESIGN.md 7 C02",
+    },
+    "C03": {
+        "families": ["lifetime"],
+        "level": "construct-once / destroy-once is proved per operation from an arbitrary state of a ghost liveness registry tied to the owner's representation invariant, for static_vector, inplace_vector, static_set, flat_set, stack, optional, variant, expected, inplace_function and the uninitialized_* algorithms with an instrumented element type",
+        "note": "the instrumented element type's special members are the only hand-written C++; implicit destructor calls are synthesised by cxx2c (trusted, mitigated by co-execution where runnable); NT overlay emulates P0848 for clang 14",
+        "not_covered": ["pair/tuple element lifetimes (compiler-generated member construction/destruction: proving them would verify the extractor)", "exception paths (lowered with -fno-exceptions)", "native replay of registry harnesses (uses CBMC pointer predicates)"],
+        "design_ref": "DESIGN.md 7 C03",
+    },
+    "C04": {
+        "families": ["string"],
+        "level": "every mutating member of inplace_string<N> is proved, from an arbitrary well-formed string, to keep size <= capacity and the terminator at size() and to produce the std::string contents/return values; observers equal the reference on the view; capacities on both sides of the small-layout boundary",
+        "note": "char only unless the evidence lists further character types; capacities enumerated",
+        "not_covered": ["character types / capacities not listed under coverage.instantiations"],
+        "design_ref": "DESIGN.md 7 C04",
+    },
+    "C05": {
+        "families": "*",
+        "level": "for each driven TETL_PRECONDITION site: with arguments constrained to VIOLATE the documented precondition (at and beyond the boundary) every path reaches the assertion handler before any out-of-object access, with the object byte-identical to its entry state and a usable location; the complement (handler silent on valid input) is an obligation of every other harness",
+        "note": "sites not driven by a violation harness are listed in coverage.not_covered; the handler is modelled as non-returning",
+        "not_covered": ["TETL_PRECONDITION sites without a violation harness", "the TETL_ENABLE_CONTRACT_CHECKS_SAFE configuration unless a family lowers it"],
+        "design_ref": "DESIGN.md 7 C05",
+    },
+    "C06": {
+        "families": ["algo", "algob"],
+        "level": "single-loop algorithms: function contracts with loop invariants on the REAL tetl functions, enforced by goto-instrument --dfcc for ranges of any length (ghost length / ghost index); nested-loop and permutation-shaped algorithms: bounded stand-ins over full-int alphabets (reported under bounded, never as proved)",
+        "note": "pointer iterators over int (and a key/tag struct for stability); predicates/comparators are lowered functors",
+        "not_covered": ["iterator categories other than those listed", "algorithms listed as bounded are not proved for unbounded lengths"],
+        "design_ref": "DESIGN.md 7 C06",
+    },
+    "C07": {
+        "families": ["sumtypes"],
+        "level": "optional/variant/expected: every modifier and observer is proved over ALL (from-state, to-state) pairs (both objects fully symbolic) against the std state tables; loop-free after instantiation, full machine domain",
+        "note": "trivially destructible alternatives (non-trivial lifetimes are C03); type-level facts (explicitness, value categories, return-type decay) are outside the technique",
+        "not_covered": ["type-level facts (overload-set ambiguity for narrowing conversions, value category passed to monadic callbacks, decay of visit's return type, explicit default constructor of expected)", "APIs tetl does not provide (optional::value/transform, expected comparisons/transform, variant member swap)"],
+        "design_ref": "DESIGN.md 7 C07",
+    },
+    "C08": {
+        "families": ["sv"],
+        "level": "single-loop character searches: contracts with loop invariants for views of any length; multi-character needles and the remaining overloads: bounded in haystack/needle length with fully symbolic characters, pos and count (size, size+1, npos inside the domain); views are exact-size, non-terminated objects",
+        "note": "char (wide types only where listed)",
+        "not_covered": ["needle lengths beyond the stated bound for the bounded groups"],
+        "design_ref": "DESIGN.md 7 C08",
+    },
+    "C09": {
+        "families": ["sets"],
+        "level": "static_set / flat_set / flat_multiset: from an arbitrary strictly-sorted set of capacity 4, every operation keeps sortedness+uniqueness and yields the std::set membership (ghost key), size, order and return values; comparators less, greater, transparent",
+        "note": "capacity 4, int keys",
+        "not_covered": ["capacities/key types other than the enumerated ones"],
+        "design_ref": "DESIGN.md 7 C09",
+    },
+    "C10": {
+        "families": ["charconv"],
+        "level": "to_chars/from_integer and the parsers against a digit-by-digit reference with exact-size buffers: complete for the 8-bit types over all values and all 35 bases (16-bit in thorough); 32/64-bit with fixed bases or value windows are reported as bounded",
+        "note": "width-bounded loops fully unwound",
+        "not_covered": ["32/64-bit types over the full (value x base) domain"],
+        "design_ref": "DESIGN.md 7 C10",
+    },
+    "C11": {
+        "families": ["calendar"],
+        "level": "case split over 164 cells of 146097 days covering years -32767..32767: in every cell civil_from_days yields an existing date that is ok(), agrees with an independent proleptic-Gregorian specification and round-trips; loop-free lemmas pin the specification (anchor + successor) and decide ok(), is_leap, last day, weekday and the modular arithmetic",
+        "note": "quick runs a stated subset of the cells (both ends, around year 0 and 1970); thorough runs all cells",
+        "not_covered": ["month/weekday/year_month arithmetic for deltas beyond the stated windows (reported as bounded)", "year_month_day_last -> sys_days (declared but not defined in tetl)"],
+        "design_ref": "DESIGN.md 7 C11",
+    },
+    "C12": {
+        "families": ["duration"],
+        "level": "duration_cast/floor/ceil/round against exact rational arithmetic: full domain for 8/16-bit reps over ten period pairs incl. non-power-of-ten ratios; mixed-period +,-,comparisons in the common type for int reps (no divider); 32/64-bit casts on value windows (bounded)",
+        "note": "inherited overflow of the standard's own defining expressions is excluded by precondition",
+        "not_covered": ["floating-point representations", "32/64-bit rounding casts outside the stated windows", "time_point_cast (does not compile on the pinned tree), time_point +/- free operators (not provided)"],
+        "design_ref": "DESIGN.md 7 C12",
+    },
+    "C13": {
+        "families": ["bits", "cmath", "cstr"],
+        "level": "for functions with an is_constant_evaluated() / builtin split both source paths are lowered; the ghost vf_ce is symbolic, so both paths are proved against the same specification for all arguments, and the constant-evaluated path is proved free of UB (UB there is a compile error)",
+        "note": "what a contract can say about C13: agreement of two SOURCE paths; fidelity of the compiler's constant evaluator, step limits and -O0/-O2 are out of reach",
+        "not_covered": ["fidelity of the compiler's constant evaluator", "functions with a single source path (nothing to compare)", "evaluation step limits"],
+        "design_ref": "DESIGN.md 7 C13",
+    },
+    "C14": {
+        "families": ["bits"],
+        "level": "every listed bit/integer utility is proved equal to its mathematical specification for all values of each 8/16/32/64-bit instantiation (loop-free, or width-bounded loops fully unwound); gcd/lcm/ipow for the 8-bit types; wide division-based helpers on divisor windows (bounded)",
+        "note": "128-bit arithmetic in the specification",
+        "not_covered": ["gcd/lcm/ipow for 16/32/64-bit operands", "div_sat/idiv for 16..64-bit operands outside the divisor window"],
+        "design_ref": "DESIGN.md 7 C14",
+    },
+    "C16": {
+        "families": ["cmath"],
+        "level": "the exact (rounding / classification / sign) functions: the portable gcem path is proved bit-identical to CBMC's IEEE-754 model of the C function for all 2^32 float patterns (double where the query finishes)",
+        "note": "approximating functions are outside the technique (no libm model)",
+        "not_covered": ["sqrt exp log pow sin cos tan asin acos atan sinh cosh tanh erf gamma lgamma beta, complex: specification is a tolerance against libm; no model of those functions exists in CBMC"],
+        "design_ref": "DESIGN.md 7 C16",
+    },
+    "C17": {
+        "families": ["bitset"],
+        "level": "bitset<N> for N in {1,8,33,64,65} (thorough: 7,9,31,32,63,127,128,129) and basic_bitset over 8/16/32/64-bit words: from an arbitrary bitset whose padding bits are zero, every mutator re-establishes the padding invariant and every bit (ghost index) of every result equals [template.bitset]; word/bit loops fully unwound",
+        "note": "widths enumerated",
+        "not_covered": ["string construction for N > 9 (bounded to strings of <= 11 characters)", "shift operators (not provided by tetl)"],
+        "design_ref": "DESIGN.md 7 C17",
+    },
+    "C18": {
+        "families": ["cstr"],
+        "level": "cctype/cwctype: full argument range against the C-locale class definitions (proof); str*/wcs*/mem*/wmem*: exact-size buffers, all byte values, lengths up to the stated bound (bounded); div/abs family",
+        "note": "the GCC branch of the compiler switch in _cstring/_cwchar is the one lowered (the pinned baseline is built with GCC)",
+        "not_covered": ["strings longer than the stated bound", "locale-dependent behaviour", "strtod/atof"],
+        "design_ref": "DESIGN.md 7 C18",
+    },
+    "C19": {
+        "families": ["views"],
+        "level": "span sub-views and element access stay inside the exact-size object and equal pointer+offset arithmetic; layout_left/right/stride mappings are in range, equal the closed form and are injective (2-safety lemma) for every in-range multi-index; rank loops unrolled",
+        "note": "obligations over dynamic extents are bounded by the stated extent cap",
+        "not_covered": ["ranks/extents beyond the enumerated ones"],
+        "design_ref": "DESIGN.md 7 C19",
+    },
+    "C20": {
+        "families": ["tuplefn"],
+        "level": "pair/tuple values, swap and lexicographic relations over fully symbolic operands; invoke/reference_wrapper/function_ref/bind_front/not_fn call the target exactly once with the same argument values; inplace_function state machine from every well-formed state",
+        "note": "value categories and decltype facts are type-level and outside the technique",
+        "not_covered": ["value-category preservation, reference collapsing of forward/forward_like (type-level)"],
+        "design_ref": "DESIGN.md 7 C20",
+    },
+}
+
+NOT_APPLICABLE = [
+    {"property_id": "C15", "reason": "type traits/concepts/numeric_limits/ratio are type-level compile-time facts: there is no function body, loop or data structure to put a contract on; the only decision procedure is the compiler (a static_assert matrix), which is a different technique"},
+]
